@@ -102,6 +102,12 @@ class Ctx:
 
 def main():
     specfile = sys.argv[1]
+    try:
+        # die with the parent: a killed check must not leave instrumented workers spinning
+        import ctypes
+        ctypes.CDLL(None).prctl(1, 9)
+    except Exception:
+        pass
     with open(specfile) as f:
         spec = json.load(f)
     # keep the protocol stream private: anything the library or Python prints to fd 1 goes to stderr instead
